@@ -22,9 +22,9 @@ func genCred(r *hk.Rand, allowColon bool) (string, string) {
 	case k == 2:
 		return string(r.Bytes(r.Range(1, 24))), "binary"
 	case k == 3:
-		n := hk.Pick(r, []int{511, 512, 513, 1, 2, 3, 4, 5, 6, 7, 47, 48, 49})
+		n := hk.Pick(r, []int{511, 512, 513, 1, 2, 3, 4, 5, 6, 7, 47, 48, 49, 255, 256, 257, 127, 128, 129})
 		if r.Chance(15) {
-			n = hk.Pick(r, []int{4095, 4096, 4097})
+			n = hk.Pick(r, []int{4095, 4096, 4097, 1023, 1024, 1025, 16383, 16384, 16385})
 		}
 		b := make([]byte, n)
 		for i := range b {
